@@ -110,6 +110,40 @@ def _work(args):
     return secname, agg
 
 
+def _shard_worker(fn, tasks, conn):
+    try:
+        conn.send([fn(t) for t in tasks])
+    finally:
+        conn.close()
+
+
+def pmap(fn, tasks, procs):
+    """Deterministic sharding: worker w executes tasks[w::procs] in that order, in one process of its own, so which cases share a
+    process (and therefore any module-level state of the library) is a function of the task list alone - never of OS scheduling.
+    Results come back in task order."""
+    if procs <= 1 or len(tasks) <= 1:
+        return [fn(t) for t in tasks]
+    procs = min(procs, len(tasks))
+    ctx = mp.get_context("fork")
+    workers = []
+    for w in range(procs):
+        rd, wr = ctx.Pipe(duplex=False)
+        pr = ctx.Process(target=_shard_worker, args=(fn, tasks[w::procs], wr))
+        pr.start()
+        wr.close()
+        workers.append((pr, rd))
+    out = [None] * len(tasks)
+    for w, (pr, rd) in enumerate(workers):
+        try:
+            res = rd.recv()
+        except EOFError:
+            raise RuntimeError("worker %d died without a result (exit code %s)" % (w, pr.exitcode))
+        pr.join()
+        for j, r in enumerate(res):
+            out[w + j * procs] = r
+    return out
+
+
 class Run:
     """Accumulates what one ./check invocation covered."""
 
@@ -144,12 +178,7 @@ class Run:
         if tasks:
             rot = self.seed % len(tasks)
             tasks = tasks[rot:] + tasks[:rot]
-        if self.procs > 1 and len(tasks) > 1:
-            ctx = mp.get_context("fork")
-            with ctx.Pool(self.procs) as pool:
-                results = list(pool.imap_unordered(_work, tasks, chunksize=1))
-        else:
-            results = [_work(t) for t in tasks]
+        results = pmap(_work, tasks, self.procs)
         for secname, agg in results:
             self.merge(secname, agg)
 
@@ -187,11 +216,7 @@ class Run:
             chunk = max(1, min(100, len(level_cases) // (self.procs * 4) or 1))
             tasks = [(sec.name, s, level_cases[s:s + chunk]) for s in range(0, len(level_cases), chunk)]
             _BFS_KEYS.clear()
-            if self.procs > 1 and len(tasks) > 1:
-                with mp.get_context("fork").Pool(self.procs) as pool:
-                    results = list(pool.imap_unordered(_work_bfs, tasks, chunksize=1))
-            else:
-                results = [_work_bfs(t) for t in tasks]
+            results = pmap(_work_bfs, tasks, self.procs)
             newfront = []
             for secname, agg, keys in sorted(results, key=lambda x: x[2][0][0] if x[2] else -1):
                 self.merge(name, agg)
